@@ -7,6 +7,7 @@ import (
 	"io/fs"
 	"os"
 	"path"
+	"runtime/debug"
 	"sort"
 	"strings"
 	"syscall"
@@ -832,6 +833,8 @@ type handle struct {
 	pos    int64
 	closed bool
 	locked bool
+	// closedAt is the stack of the Close call (only with DebugUseAfterClose)
+	closedAt string
 }
 
 var (
@@ -844,9 +847,16 @@ func (h *handle) Name() string { return h.name }
 func (h *handle) canRead() bool  { return h.flag&os.O_WRONLY == 0 }
 func (h *handle) canWrite() bool { return h.flag&(os.O_WRONLY|os.O_RDWR) != 0 }
 
+// DebugUseAfterClose, when set, is called with the stack of the Close and of
+// the later use of a closed handle (debugging aid).
+var DebugUseAfterClose func(name, closedAt, usedAt string)
+
 func (h *handle) closedErr(v verdict, op string) error {
 	d := h.fs.d
 	d.UseAfterClose++
+	if DebugUseAfterClose != nil {
+		DebugUseAfterClose(h.name, h.closedAt, string(debug.Stack()))
+	}
 	err := &os.PathError{Op: op, Path: h.name, Err: os.ErrClosed}
 	d.end(v, err)
 	return err
@@ -1114,6 +1124,9 @@ func (h *handle) Close() error {
 		return err
 	}
 	h.closed = true
+	if DebugUseAfterClose != nil {
+		h.closedAt = string(debug.Stack())
+	}
 	delete(d.openHandles, h)
 	if h.node.lockedBy == h {
 		h.node.lockedBy = nil
